@@ -2,7 +2,7 @@
    PARTIAL (see C01.v for the reason): decision rules + facts about how the
    recorded dependency set is maintained. *)
 From Coq Require Import ZArith List.
-From Redo Require Import Base.Bytes Build.Model Build.LocalProofs Build.FailProofs.
+From Redo Require Import Base.Bytes Build.Model Build.LocalProofs Build.FailProofs Build.CleanProofs.
 
 Theorem C02_never_built_runs : forall fuel runid w c f r mx seen,
   existsb (Nat.eqb f) seen = false ->
@@ -78,3 +78,40 @@ Example C02_example :
                 | _ => None end) (run_history h (init_world 0))
   = [None; None; None; Some 1%nat; Some 0%nat; None; Some 1%nat; None; Some 0%nat; None; Some 1%nat].
 Proof. vm_compute. reflexivity. Qed.
+
+(* ---- "a repeated build with no changes runs nothing", at the level of one
+   check, for EVERY recorded graph: a set S of file ids is quiet when each
+   member's row did not fail, was built, matches the file on disk, has all its
+   redo-ifcreate paths absent and only redo-ifchange dependencies that are in S,
+   not newer, and of smaller rank (no recorded cycle).  Then the dirtiness walk
+   answers CLEAN for every member, writes nothing and starts nothing -- for the
+   walk whose world never changes (redo-ood's; the builder's returns the same
+   verdicts whenever it returns: C17_ood_agrees_with_builder).  Together with
+   C02_moved_on_dep_not_clean this pins the verdict from both sides. *)
+Theorem C02_quiet_is_clean : forall runid w rk S fuel g l,
+  forallb (quiet_row_b runid w rk S) S = true -> In g S -> (rk g < fuel)%nat ->
+  (forall chg, r_changed (ld runid w g) = Some chg -> (chg <= runid)%Z) ->
+  exists l' evs, is_dirty fuel runid w (ChkMem l) g (ld runid w g) runid nil = Ret (VClean, w, ChkMem l', evs).
+Proof. exact quiet_b_all_clean. Qed.
+Check C02_quiet_is_clean : forall runid w rk S fuel g l,
+  forallb (quiet_row_b runid w rk S) S = true -> In g S -> (rk g < fuel)%nat ->
+  (forall chg, r_changed (ld runid w g) = Some chg -> (chg <= runid)%Z) ->
+  exists l' evs, is_dirty fuel runid w (ChkMem l) g (ld runid w g) runid nil = Ret (VClean, w, ChkMem l', evs).
+Print Assumptions C02_quiet_is_clean.
+
+(* non-vacuity: the state the model reaches by building T <- {m*, s}, m* <- s
+   (m checksummed; both declare redo-ifcreate w, which does not exist) is quiet
+   on {T, T.do, m, s, m.do}, and the next run's walk of T is clean *)
+Example C02_quiet_example :
+  let mk deps stamp p := {| s_deps := deps; s_ifcreate := (119%N :: nil) :: nil; s_always := false; s_stamp := stamp;
+                            s_out := OStdout; s_payload := p; s_cat := true; s_exit := 0%Z; s_tol := false |} in
+  let T := (84 :: nil)%N in let m := (109 :: nil)%N in let s := (115 :: nil)%N in
+  let h := SWrite s (1%N :: nil) :: SWriteDo (T ++ b_do) (mk (m :: s :: nil) false 10%N)
+           :: SWriteDo (m ++ b_do) (mk (s :: nil) true 20%N) :: SCmd (CIfChange false (T :: nil)) :: nil in
+  let w := fst (last (run_history h (init_world 0)) (init_world 0, None)) in
+  let rid := 1000000002%Z in
+  let S := (2 :: 3 :: 4 :: 5 :: 6 :: nil)%nat in
+  forallb (quiet_row_b rid w (fun g => (50 - g)%nat) S) S = true
+  /\ match is_dirty 60 rid w (ChkMem nil) 2%nat (ld rid w 2%nat) rid nil with
+     | Ret (VClean, _, _, _) => True | _ => False end.
+Proof. vm_compute. split; [reflexivity|exact I]. Qed.
